@@ -205,6 +205,23 @@ func c18(c *Ctx) {
 			if !passed {
 				bad2 = append(bad2, "the link text is not handed to a storing builder")
 			}
+			// inside the symlink builder the text reaches the node's Data member unmodified
+			for rb := range body.blocks {
+				for _, ins := range rb.Instrs {
+					call, ok := ins.(*ssa.Call)
+					if !ok || call.Call.StaticCallee() == nil || !L[call.Call.StaticCallee()] {
+						continue
+					}
+					for i, a := range call.Call.Args {
+						if a != target {
+							continue
+						}
+						if why := c.textStoredVerbatim(call.Call.StaticCallee(), i); why != "" {
+							bad2 = append(bad2, why)
+						}
+					}
+				}
+			}
 		}
 		if !found {
 			bad2 = append(bad2, "os.Readlink(root) is not called")
@@ -479,4 +496,119 @@ func (c *Ctx) armBodies(imp *ssa.Function, arm *ssa.BasicBlock, root ssa.Value) 
 		}
 	}
 	return out
+}
+
+// textStoredVerbatim: in storing builder S the string parameter idx is written into the UnixFS Data member as
+// []byte(param), with no call in between (no cleaning, trimming or separator translation). Returns "" when that holds.
+func (c *Ctx) textStoredVerbatim(S *ssa.Function, idx int) string {
+	if idx >= len(S.Params) || len(S.Blocks) == 0 {
+		return ""
+	}
+	p := S.Params[idx]
+	isDataSetter := func(f *ssa.Function) bool {
+		if f == nil || len(f.Blocks) == 0 {
+			return false
+		}
+		if rel, ok := c.P.PkgOf(f); !ok || rel != "data/builder" {
+			return false
+		}
+		for _, ci := range core.CallsIn(f) {
+			if call, ok := ci.(*ssa.Call); ok && core.IsCallTo(call, qpPath, "MapEntry") && len(call.Call.Args) >= 2 {
+				if k, isC := call.Call.Args[1].(*ssa.Const); isC && k.Value != nil && k.Value.Kind() == constant.String && constant.StringVal(k.Value) == "Data" {
+					return true
+				}
+			}
+		}
+		return false
+	}
+	var rootParam func(fn *ssa.Function, v ssa.Value, d int) (*ssa.Parameter, bool)
+	cellParam := func(cell ssa.Value) *ssa.Parameter {
+		al, ok := cell.(*ssa.Alloc)
+		if !ok {
+			return nil
+		}
+		var src ssa.Value
+		n := 0
+		for _, ref := range *al.Referrers() {
+			if st, ok := ref.(*ssa.Store); ok && st.Addr == ssa.Value(al) {
+				n++
+				src = st.Val
+			}
+		}
+		if n != 1 {
+			return nil
+		}
+		pp, _ := src.(*ssa.Parameter)
+		return pp
+	}
+	// returns (parameter the value is a verbatim copy of, whether a call transformed it on the way)
+	rootParam = func(fn *ssa.Function, v ssa.Value, d int) (*ssa.Parameter, bool) {
+		for i := 0; i < 8; i++ {
+			switch x := v.(type) {
+			case *ssa.Parameter:
+				return x, false
+			case *ssa.Convert:
+				v = x.X
+			case *ssa.ChangeType:
+				v = x.X
+			case *ssa.UnOp:
+				if x.Op != token.MUL {
+					return nil, false
+				}
+				if fv, isFV := x.X.(*ssa.FreeVar); isFV && fn.Parent() != nil {
+					for _, b := range fn.Parent().Blocks {
+						for _, ins := range b.Instrs {
+							if mc, ok := ins.(*ssa.MakeClosure); ok && mc.Fn == ssa.Value(fn) {
+								for bi, fvv := range fn.FreeVars {
+									if fvv == fv && bi < len(mc.Bindings) {
+										if pp := cellParam(mc.Bindings[bi]); pp != nil {
+											return pp, false
+										}
+									}
+								}
+							}
+						}
+					}
+					return nil, false
+				}
+				if pp := cellParam(x.X); pp != nil {
+					return pp, false
+				}
+				return nil, false
+			case *ssa.Call:
+				// a transformation: does it take the parameter?
+				for _, a := range x.Call.Args {
+					if pp, _ := rootParam(fn, a, d+1); pp != nil && d < 3 {
+						return pp, true
+					}
+				}
+				return nil, false
+			default:
+				return nil, false
+			}
+		}
+		return nil, false
+	}
+	fns := append([]*ssa.Function{S}, S.AnonFuncs...)
+	n := 0
+	for _, fn := range fns {
+		for _, ci := range core.CallsIn(fn) {
+			call, ok := ci.(*ssa.Call)
+			if !ok || !isDataSetter(call.Call.StaticCallee()) || len(call.Call.Args) < 2 {
+				continue
+			}
+			pp, transformed := rootParam(fn, call.Call.Args[len(call.Call.Args)-1], 0)
+			if pp != p {
+				continue
+			}
+			n++
+			if transformed {
+				return "the symlink builder " + core.FuncName(S) + " transforms the link text before storing it (at " + c.P.Pos(call.Pos()) + "): the stored target differs from what os.Readlink returned"
+			}
+		}
+	}
+	if n == 0 {
+		return "the symlink builder " + core.FuncName(S) + " does not store its text parameter verbatim into the Data member"
+	}
+	return ""
 }
